@@ -466,7 +466,10 @@ def _opts(o):
   return 0, None
 
 
-def build_bytes(spec: Spec) -> bytearray:
+def build_bytes(spec: Spec, empty_buffer=None) -> bytearray:
+  """empty_buffer: None | 'tensor' (an unused zero-element int32 constant whose buffer carries a
+  present-but-empty data vector) | 'orphan' (such a buffer referenced by no tensor). Both are
+  legal TFLite; the TF converter normally omits the data field instead."""
   m = sch.ModelT()
   m.version = 3
   m.description = 'aeq-sim generated'
@@ -502,6 +505,17 @@ def build_bytes(spec: Spec) -> bytearray:
     fo.outputs = np.array(o['outputs'], dtype=np.int32)
     fo.builtinOptionsType, fo.builtinOptions = _opts(o)
     sg.operators.append(fo)
+  if empty_buffer:
+    eb = sch.BufferT()
+    eb.data = np.array([], dtype=np.uint8)
+    m.buffers.append(eb)
+    if empty_buffer == 'tensor':
+      et = sch.TensorT()
+      et.name = b'aux/empty_const'
+      et.shape = np.array([0], dtype=np.int32)
+      et.type = I32
+      et.buffer = len(m.buffers) - 1
+      sg.tensors.append(et)
   sg.inputs = np.array(spec.inputs, dtype=np.int32)
   sg.outputs = np.array(spec.outputs, dtype=np.int32)
   m.operatorCodes = codes
@@ -582,7 +596,7 @@ def get_model(desc):
     return spec, bytearray(b)
   if desc['kind'] == 'gen':
     spec = _Gen(desc['seed'], desc.get('max_ops', 6), desc.get('bias')).run()
-    b = build_bytes(spec)
+    b = build_bytes(spec, desc.get('empty_buffer'))
   else:
     with open(os.path.join(CORPUS_DIR, desc['name'] + '.tflite'), 'rb') as f:
       b = bytearray(f.read())
